@@ -1190,7 +1190,7 @@ def map_key_term(I, m, key):
 
 
 def map_contains(I, m, key):
-    k = m.keysort.encode(I, key)
+    k = m.key(I, key)
     return z3.Select(m.dom, k)
 
 
@@ -1199,7 +1199,7 @@ def map_nonempty(I, m):
 
 
 def map_getitem(I, m, key, node=None):
-    k = m.keysort.encode(I, key)
+    k = m.key(I, key)
     if I.ctx.decide(z3.Select(m.dom, k)):
         return m.valwrap(I, z3.Select(m.val, k))
     if m.default_factory is not None:
@@ -1210,13 +1210,13 @@ def map_getitem(I, m, key, node=None):
 
 
 def map_setitem(I, m, key, value, node=None):
-    k = m.keysort.encode(I, key)
+    k = m.key(I, key)
     m.dom = z3.Store(m.dom, k, z3.BoolVal(True))
     m.val = z3.Store(m.val, k, m.valunwrap(I, value))
 
 
 def map_delitem(I, m, key, node=None):
-    k = m.keysort.encode(I, key)
+    k = m.key(I, key)
     if not I.ctx.decide(z3.Select(m.dom, k)):
         I.throw("KeyError", key, node=node)
     m.dom = z3.Store(m.dom, k, z3.BoolVal(False))
